@@ -10,6 +10,9 @@
 #include "mpienv.hpp"
 
 #include "hep/mc.hpp"
+
+#include <fcntl.h>
+#include <unistd.h>
 #include "hep/mc-mpi.hpp"
 
 #include <cmath>
@@ -21,6 +24,7 @@ typedef std::size_t sz;
 typedef long double L;
 
 static std::string g_file;
+static std::string g_scratch;      // a directory of this process (runs without a file name happen inside it)
 
 template <typename C>
 static std::string text_of(C const& c) { std::ostringstream o; c.serialize(o); return o.str(); }
@@ -324,10 +328,14 @@ static void part_c(report& r)
         g_alt = 0;
         std::ostringstream sink;
         std::streambuf* const old = std::cout.rdbuf(sink.rdbuf());
+        // without a file name a writing mode works on names made of a suffix only, relative to the current directory: run there
+        int const here = ::open(".", O_RDONLY);
+        if (!named && (here < 0 || ::chdir(g_scratch.c_str()) != 0)) { std::perror("scratch directory"); std::exit(2); }
         auto const ret = hep::plain(hep::make_integrand<T>(alt_fn<T>(), 1), calls, hep::make_plain_chkpt<T, vf::script_engine>(vf::script_engine()),
             hep::callback<C>(modes[mi], named ? g_file : std::string(), t.target));
+        if (!named && ::fchdir(here) != 0) { std::perror("fchdir"); std::exit(2); }
+        if (here >= 0) ::close(here);
         std::cout.rdbuf(old);
-        ::unlink(".tmp");   // a writing mode without a file name leaves its temporary file behind
         sz const performed = ret.results().size();
         if (performed != t.expect)
             r.violate(performed < t.expect ? "stopped-before-target-reached" : "continued-after-target-reached", id, id + ": performed " + std::to_string(performed)
@@ -356,6 +364,8 @@ int main(int argc, char** argv)
     report r(a);
     ::mkdir("build", 0777); ::mkdir("build/out", 0777); ::mkdir("build/out/tmp", 0777);
     g_file = "build/out/tmp/c12_" + std::to_string(::getpid()) + ".chkpt";
+    g_scratch = "build/out/tmp/c12_" + std::to_string(::getpid()) + ".dir";
+    ::mkdir(g_scratch.c_str(), 0777);
 #if VF_PART_ENABLED(0)
     if (a.nshards == 1 || a.shard % 3 == 0) for_type<float>(r);
 #endif
@@ -366,5 +376,6 @@ int main(int argc, char** argv)
     if (a.nshards == 1 || a.shard % 3 == 2) for_type<long double>(r);
 #endif
     ::unlink(g_file.c_str());
+    vf::remove_tree(g_scratch);
     return r.finish();
 }
